@@ -239,6 +239,54 @@ def rule_next(ctx, F):
         text_gate(ctx, "T8", fn, repl[:1] if False else repl, [("an existing tag is replaced only by a match of an earlier pattern", [((" > (*", ").pattern_index)"), True)])], accept_desc="replacing a queued tag")
 
 
+def rule_docs(ctx, F):
+    """D1 (select-adjacent docs): walking upwards from the adjacent node, a doc node joins the chain iff its
+    *end* row + 1 reaches the *start* row of the node below it; the docs are the chain from that index on."""
+    nxt = [f for f in F.fn_list if f.name.startswith("<TagsIter") and f.name.endswith("::next")]
+    if not nxt:
+        return
+    fn = nxt[0]
+    # the comparison `end_row + 1 >= start_row`
+    cmp_blk = None
+    for b in fn.blocks.values():
+        c = fn.cond(b.id)
+        if c is None:
+            continue
+        d = rsrules.cond_def(fn, c)
+        if d.get("k") == "bin" and d.get("op") in (">=", "<=", "<", ">"):
+            lt, rt = deep_text(fn, d["l"], user=True), deep_text(fn, d["r"], user=True)
+            if "end_position(" in lt + rt and "doc_nodes" in lt + rt:
+                cmp_blk = (b.id, d, lt, rt)
+    if not cmp_blk:
+        ctx.bad("D1", "next:adjacency-test", "the select-adjacent test (a doc node's end row against the row below) was not found in TagsIter::next")
+        return
+    bid, d, lt, rt = cmp_blk
+    end_side, other = (d["l"], d["r"]) if "end_position(" in lt else (d["r"], d["l"])
+    et = deep_text(fn, end_side, user=True)
+    ok_end = "end_position(" in et and ").row + 1)" in et and "start_position(" not in et
+    o = resolve(fn, other)
+    row_ids = [o["id"]] if o.get("k") == "ref" else []
+    defs = [deep_text(fn, x, user=True) for i in row_ids for x in fn.defs(i) if isinstance(x, dict) and x.get("k") not in ("uninit", "param")]
+    ok_rows = bool(defs) and all("start_position(" in t and t.endswith(".row") and "end_position(" not in t for t in defs)
+    if ok_end and ok_rows and len(defs) >= 2:
+        ctx.ok("D1", "next:adjacency-measures-end-against-start", "a doc node is adjacent iff its end row + 1 reaches the start row of the node below (%d definitions of that row, all start rows)" % len(defs))
+    else:
+        ctx.bad("D1", "next:adjacency-measures-end-against-start", "the select-adjacent chain no longer compares `end row + 1` of a doc node with the *start* row of the node below it (row definitions: %s): "
+                "docs above a multi-line doc node are dropped or wrongly kept" % [t[-60:] for t in defs], {"rows": [t[:160] for t in defs]})
+    dec = [pt for pt, e in fn.points() for x in own_walk(e) if x.get("k") == "assign" and strip(x["l"]).get("k") == "ref" and not str(strip(x["l"]).get("name", "_")).startswith("_")
+           and "usize" in (strip(x["l"]).get("t") or "") and re.search(r"\(%s - 1\)" % re.escape(strip(x["l"]).get("name", "?")), inline_text(fn, x["r"]))]
+    if dec:
+        text_gate(ctx, "D1", fn, dec, [("a doc node is taken into the chain only when it is adjacent", [((" + 1).0 >= ",), True), ((" < ", "+ 1"), False)])], accept_desc="extending the doc chain")
+    else:
+        ctx.bad("D1", "next:chain-extension", "the doc chain is no longer extended by decrementing the start index")
+    sl = [x for pt, e in fn.points() for x in own_walk(e) if x.get("k") == "call" and "Index" in (x.get("fn") or "") and len(x.get("a", [])) == 2 and "doc_nodes" in deep_text(fn, x["a"][0], user=False)
+          and deep_text(fn, x["a"][1], user=False).startswith("RangeFrom")]
+    if sl:
+        ctx.ok("D1", "next:docs-are-the-chain", "the doc string is built from doc_nodes[start_index..]")
+    else:
+        ctx.bad("D1", "next:docs-are-the-chain", "the doc string is no longer built from doc_nodes[start_index..]")
+
+
 def rule_line_range(ctx, F):
     fn = find_fn(ctx, F, "line_range", "T6")
     if not fn:
@@ -299,6 +347,7 @@ def run(ctx):
     ctx.analysed["rust_functions"] = len(F.fn_list)
     rule_next(ctx, F)
     rule_line_range(ctx, F)
+    rule_docs(ctx, F)
     return ctx.finish(
         "Value-flow rules over rustc MIR of tree-sitter-tags (TagsIter::next, line_range, utf16_len): which node and which positions each field of a Tag and of the "
         "per-line cache is computed from, the gates on using the cache and on dropping a tag, and the bounds of the line window. "
